@@ -93,6 +93,9 @@ func cmdShut(args []string) error {
 	ctl := NewController()
 	ctl.enabled = map[string]bool{"op.start": true, "post.before": true, "exp.fire": true, "exp.locked": true, "exp.done": true,
 		"closedelete.enter": true, "closedelete.locked": true, "close.unregistered": true, "open.cachemiss": true, "open.beforeregister": true, "view.updateafter": true}
+	if has("ddoc") {
+		ctl.enabled["txn.enter"] = true // the design-document writer stops once more before it asks for the bucket mutex
+	}
 	ctl.BlockTimeout = 40 * time.Millisecond
 	opening := has("open1") || has("open2")
 	var pendAt time.Time
@@ -150,6 +153,8 @@ func cmdShut(args []string) error {
 			case "closelast":
 				b.Close(ctx)
 				setRes(p, "ok")
+			case "ddoc":
+				setRes(p, classify(c.(*rosmar.Collection).PutDDoc(ctx, "vd2", viewDDoc())))
 			case "writer":
 				// the first expiry of the bucket: the timer is armed after the event has been posted
 				setRes(p, classify(c.SetRaw("w", uint32(time.Now().Unix())+1, nil, []byte("w"))))
